@@ -76,14 +76,22 @@ Proof. reflexivity. Qed.
 (* a cleared store of any kind emits no byte *)
 Theorem enc_store_clear_empty (s : store) (t : N) : snd (enc_store (st_clear s) t) = [].
 Proof.
-  destruct s as [d|m|p]; simpl.
-  - apply enc_dense_clear.
+  destruct s as [d|m|p].
+  - change (enc_dense (clear_d d) t = []). apply enc_dense_clear.
   - reflexivity.
-  - pose proof (enc_pag_clear p t) as H. destruct (enc_pag (p_clear p) t) as [p' b]. exact H.
+  - change (snd (let '(p', b) := enc_pag (p_clear p) t in (SP p', b)) = []).
+    pose proof (enc_pag_clear p t) as H. destruct (enc_pag (p_clear p) t) as [p' b]. exact H.
 Qed.
 (* neither does a new one *)
 Theorem enc_store_new_empty (k : kind) (t : N) : snd (enc_store (st_new k) t) = [].
-Proof. destruct k; simpl; try apply enc_dense_new; reflexivity. Qed.
+Proof.
+  destruct k as [| | |n|n].
+  - change (enc_dense (new_dense Exact) t = []). apply enc_dense_new.
+  - reflexivity.
+  - reflexivity.
+  - change (enc_dense (new_dense (Lowest n)) t = []). apply enc_dense_new.
+  - change (enc_dense (new_dense (Highest n)) t = []). apply enc_dense_new.
+Qed.
 
 Theorem enc_store_clear_like_new (s : store) (t : N) :
   StInv s -> snd (enc_store (st_clear s) t) = snd (enc_store (st_new (st_kind s)) t).
@@ -94,14 +102,16 @@ Proof. intros _. rewrite enc_store_clear_empty, enc_store_new_empty. reflexivity
 Theorem enc_store_clear_again (s : store) (t t' : N) :
   snd (enc_store (fst (enc_store (st_clear s) t)) t') = [].
 Proof.
-  destruct s as [d|m|p]; simpl.
-  - apply enc_dense_clear.
+  destruct s as [d|m|p].
+  - change (enc_dense (clear_d d) t' = []). apply enc_dense_clear.
   - reflexivity.
-  - unfold enc_pag at 2. rewrite compact_clear. cbv beta iota zeta delta [snd buffer pages minPage].
-    simpl fst.
-    change (snd (enc_pag (p_clear {| buffer := []; trigger := zlen (@nil Z) + pageLen;
-                                     pages := pages p; minPage := MaxInt64 |}) t') = []).
-    apply enc_pag_clear.
+  - change (snd (enc_store (fst (let '(p', b) := enc_pag (p_clear p) t in (SP p', b))) t') = []).
+    assert (H : fst (enc_pag (p_clear p) t) =
+                p_clear {| buffer := []; trigger := zlen (@nil Z) + pageLen;
+                           pages := pages p; minPage := MaxInt64 |}).
+    { unfold enc_pag. rewrite compact_clear. reflexivity. }
+    destruct (enc_pag (p_clear p) t) as [p' b]. cbv beta iota delta [fst] in H |- *. subst p'.
+    apply (enc_store_clear_empty (SP _) t').
 Qed.
 
 (* ---------------- sketch ---------------- *)
@@ -137,16 +147,16 @@ Qed.
 Theorem enc_sketch_clear_bytes (s : sketch) (omit : bool) :
   snd (enc_sketch (sk_clear s) omit) = if omit then [] else enc_mapping (sk_map s).
 Proof.
-  rewrite enc_sketch_bytes. unfold sk_clear; simpl.
+  rewrite enc_sketch_bytes. unfold sk_clear; cbn [sk_stats sk_zero sk_map sk_pos sk_neg].
   rewrite !enc_store_clear_empty, weqb_refl, !app_nil_r.
-  destruct (sk_stats s); [rewrite stats_new_no_block|]; reflexivity.
+  destruct (sk_stats s); cbv beta iota; [rewrite stats_new_no_block|]; reflexivity.
 Qed.
 Theorem enc_sketch_new_bytes (m : mapid) (kp kn : kind) (exact omit : bool) :
   snd (enc_sketch (sk_new m kp kn exact) omit) = if omit then [] else enc_mapping m.
 Proof.
-  rewrite enc_sketch_bytes. unfold sk_new; simpl.
+  rewrite enc_sketch_bytes. unfold sk_new; cbn [sk_stats sk_zero sk_map sk_pos sk_neg].
   rewrite !enc_store_new_empty, weqb_refl, !app_nil_r.
-  destruct exact; [rewrite stats_new_no_block|]; reflexivity.
+  destruct exact; cbv beta iota; [rewrite stats_new_no_block|]; reflexivity.
 Qed.
 
 Theorem enc_sketch_clear_like_new (s : sketch) (omit : bool) :
@@ -163,10 +173,10 @@ Proof.
   assert (H : fst (enc_sketch (sk_clear s) omit) =
               with_stores (sk_clear s) (fst (enc_store (st_clear (sk_pos s)) ft_positive))
                                        (fst (enc_store (st_clear (sk_neg s)) ft_negative))).
-  { unfold enc_sketch. simpl sk_pos. simpl sk_neg.
+  { unfold enc_sketch. unfold sk_clear at 1 2; cbn [sk_pos sk_neg].
     destruct (enc_store (st_clear (sk_pos s)) ft_positive) as [p' bp].
     destruct (enc_store (st_clear (sk_neg s)) ft_negative) as [n' bn]. reflexivity. }
-  rewrite H. unfold with_stores, sk_clear; simpl.
+  rewrite H. unfold with_stores, sk_clear; cbn [sk_stats sk_zero sk_map sk_pos sk_neg].
   rewrite !enc_store_clear_again, weqb_refl, !app_nil_r.
-  destruct (sk_stats s); [rewrite stats_new_no_block|]; reflexivity.
+  destruct (sk_stats s); cbv beta iota; [rewrite stats_new_no_block|]; reflexivity.
 Qed.
